@@ -494,17 +494,148 @@ impl<'a> Interp<'a> {
         self.expand_text(&text, depth, path)
     }
 
-    /// expand every usage inside `text`
+    /// expand every usage inside `text`; compiler directives inside it are executed as they are
+    /// in a source file (the text is re-scanned as source, IEEE 22.5.1)
     fn expand_text(&mut self, text: &str, depth: usize, path: &str) -> Result<String, PErr> {
         let lx = match lexref::lex(text) {
             Ok(l) => l,
             Err(_) => return Err(PErr::Abstain),
         };
-        let mut out = String::new();
         let mut i = 0;
+        let out = self.expand_lexemes(text, &lx, &mut i, depth, path, false)?;
+        if i < lx.len() {
+            // an `elsif / `else / `endif without its `ifdef
+            return Err(PErr::Abstain);
+        }
+        Ok(out)
+    }
+
+    /// index of the `elsif / `else / `endif that ends the group starting at `i` (nested chains skipped)
+    fn skip_group(text: &str, lx: &[lexref::Lx], mut i: usize) -> Option<usize> {
+        let mut nest = 0usize;
+        while i < lx.len() {
+            if lx[i].k == K::Bt {
+                match &text[lx[i].b..lx[i].e] {
+                    "`ifdef" | "`ifndef" => nest += 1,
+                    "`endif" if nest > 0 => nest -= 1,
+                    "`endif" | "`else" | "`elsif" if nest == 0 => return Some(i),
+                    _ => {}
+                }
+            }
+            i += 1;
+        }
+        None
+    }
+
+    /// the identifier that must follow a directive keyword at lexeme `i`
+    fn word_after(text: &str, lx: &[lexref::Lx], i: usize) -> Option<(usize, String)> {
+        let mut j = i + 1;
+        while j < lx.len() && lx[j].k == K::Ws {
+            j += 1;
+        }
+        if j < lx.len() && lx[j].k == K::Word && !text.as_bytes()[lx[j].b].is_ascii_digit() {
+            Some((j, text[lx[j].b..lx[j].e].to_string()))
+        } else {
+            None
+        }
+    }
+
+    fn expand_lexemes(&mut self, text: &str, lx: &[lexref::Lx], ip: &mut usize, depth: usize, path: &str, in_group: bool) -> Result<String, PErr> {
+        let mut out = String::new();
+        let mut i = *ip;
         while i < lx.len() {
             let l = &lx[i];
             let t = &text[l.b..l.e];
+            if l.k == K::Bt {
+                match t {
+                    "`undef" => {
+                        let Some((j, n)) = Self::word_after(text, lx, i) else { return Err(PErr::Abstain) };
+                        out.push_str(&text[l.b..lx[j].e]);
+                        self.table.remove(&n);
+                        i = j + 1;
+                        continue;
+                    }
+                    "`undefineall" => {
+                        out.push_str(t);
+                        self.table.clear();
+                        i += 1;
+                        continue;
+                    }
+                    "`define" => {
+                        let Some((j, n)) = Self::word_after(text, lx, i) else { return Err(PErr::Abstain) };
+                        if j + 1 < lx.len() && lx[j + 1].b == lx[j].e && &text[lx[j + 1].b..lx[j + 1].e] == "(" {
+                            // formal arguments inside an expansion: outside the model
+                            return Err(PErr::Abstain);
+                        }
+                        // the macro text runs to the end of the line
+                        let rest = &text[lx[j].e..];
+                        let eol = rest.find('\n').unwrap_or(rest.len());
+                        let body = rest[..eol].trim().to_string();
+                        if lexref::lex(&body).is_err() || body.contains("//") || body.contains("/*") {
+                            return Err(PErr::Abstain);
+                        }
+                        let end = lx[j].e + eol;
+                        out.push_str(&text[l.b..end]);
+                        if !predefined(&n) {
+                            // (the origin the implementation records for such a macro points into the expanded text, not into a file)
+                            self.table.insert(n.clone(), Some(Def { name: n, formals: vec![], body: if body.is_empty() { None } else { Some(body) }, origin: Some((path.to_string(), 0, 0)) }));
+                        }
+                        i = j + 1;
+                        while i < lx.len() && lx[i].b < end {
+                            i += 1;
+                        }
+                        continue;
+                    }
+                    "`ifdef" | "`ifndef" => {
+                        let Some((j, n)) = Self::word_after(text, lx, i) else { return Err(PErr::Abstain) };
+                        let ifid_predef = predefined(&n);
+                        let mut hit = self.defined(&n) != (t == "`ifndef");
+                        i = j + 1;
+                        let mut taken = hit;
+                        loop {
+                            if taken {
+                                out.push_str(&self.expand_lexemes(text, lx, &mut i, depth, path, true)?);
+                            } else {
+                                i = Self::skip_group(text, lx, i).ok_or(PErr::Abstain)?;
+                            }
+                            if i >= lx.len() {
+                                return Err(PErr::Abstain);
+                            }
+                            match &text[lx[i].b..lx[i].e] {
+                                "`endif" => {
+                                    i += 1;
+                                    break;
+                                }
+                                "`else" => {
+                                    taken = !hit;
+                                    hit = true;
+                                    i += 1;
+                                }
+                                "`elsif" => {
+                                    let Some((j, n)) = Self::word_after(text, lx, i) else { return Err(PErr::Abstain) };
+                                    let cond = if self.emu.elsif_tests_ifid_for_predefined { self.table.contains_key(&n) || ifid_predef } else { self.defined(&n) };
+                                    taken = !hit && cond;
+                                    if taken {
+                                        hit = true;
+                                    }
+                                    i = j + 1;
+                                }
+                                _ => return Err(PErr::Abstain),
+                            }
+                        }
+                        continue;
+                    }
+                    "`endif" | "`else" | "`elsif" => {
+                        if in_group {
+                            *ip = i;
+                            return Ok(out);
+                        }
+                        return Err(PErr::Abstain);
+                    }
+                    "`include" | "`resetall" | "`celldefine" | "`endcelldefine" | "`timescale" | "`default_nettype" | "`unconnected_drive" | "`nounconnected_drive" | "`pragma" | "`line" | "`begin_keywords" | "`end_keywords" | "`__LINE__" => return Err(PErr::Abstain),
+                    _ => {}
+                }
+            }
             if l.k == K::Bt && t.len() > 1 && t != "``" && t != "`\"" && t != "`\\`\"" {
                 let name = &t[1..];
                 if name == "__FILE__" {
@@ -573,6 +704,7 @@ impl<'a> Interp<'a> {
                 i += 1;
             }
         }
+        *ip = i;
         Ok(out)
     }
 }
